@@ -28,6 +28,7 @@ import (
 	"verif/internal/basmgen"
 	"verif/internal/evid"
 	"verif/internal/gen"
+	"verif/internal/gogen"
 	"verif/internal/hx"
 )
 
@@ -72,6 +73,27 @@ func validate(bm *bondmachine.Bondmachine) (string, string) {
 		}
 		if n != int(bm.Domains[d].N) || m != int(bm.Domains[d].M) {
 			return "bonds", fmt.Sprintf("processor %d has %d/%d endpoints, its domain %d/%d ports", p, n, m, bm.Domains[d].N, bm.Domains[d].M)
+		}
+	}
+	// shared objects: every link names an existing object, and a processor is linked to exactly as many
+	// objects as its domain's constraint list declares (the k-th entry is the processor's k-th object)
+	if len(bm.Shared_links) > len(bm.Processors) {
+		return "shared-objects", fmt.Sprintf("%d shared-link lists for %d processors", len(bm.Shared_links), len(bm.Processors))
+	}
+	for p, links := range bm.Shared_links {
+		for _, so := range links {
+			if so < 0 || so >= len(bm.Shared_objects) {
+				return "shared-objects", fmt.Sprintf("processor %d is linked to shared object %d, the machine has %d", p, so, len(bm.Shared_objects))
+			}
+		}
+		declared := 0
+		for _, c := range strings.Split(bm.Domains[bm.Processors[p]].Shared_constraints, ",") {
+			if strings.TrimSpace(c) != "" {
+				declared++
+			}
+		}
+		if declared != len(links) {
+			return "shared-objects", fmt.Sprintf("processor %d declares %d shared object(s) (%q) but the machine links %d to it %v", p, declared, bm.Domains[bm.Processors[p]].Shared_constraints, len(links), links)
 		}
 	}
 	ein, eout := 0, 0
@@ -638,6 +660,18 @@ func main() {
 			cli("bondgo-"+name+"-"+rs, "bondgo", [][]string{{"bondgo", "-input-file", "p.go", "-save-machine", "m.json", "-register-size", rs}}, map[string]string{"p.go": src}, "m.json")
 			cli("bondgo-mpm-"+name+"-"+rs, "bondgo-mpm", [][]string{{"bondgo", "-mpm", "-input-file", "p.go", "-save-bondmachine", "bm.json", "-register-size", rs}}, map[string]string{"p.go": src}, "bm.json")
 		}
+	}
+	// goroutines and channels across processors (a worker has an input and an output channel), and I/O
+	// ids shared between processors
+	nMpm := 6
+	if tier == "thorough" {
+		nMpm = 60
+	}
+	rngM := hx.RNG(run.Seed, "c16-mpm")
+	for i := 0; i < nMpm; i++ {
+		rs := []int{8, 16, 32}[rngM.IntN(3)]
+		src := gogen.GenerateMpm(rngM, rs)
+		cli(fmt.Sprintf("bondgo-mpm-gen%d-%d", i, rs), "bondgo-mpm-channels", [][]string{{"bondgo", "-mpm", "-input-file", "p.go", "-save-bondmachine", "bm.json", "-register-size", strconv.Itoa(rs)}}, map[string]string{"p.go": src}, "bm.json")
 	}
 	os.Exit(run.Finish())
 }
